@@ -3,6 +3,7 @@ use crate::Ctx;
 
 pub mod c01;
 pub mod c04;
+pub mod c05;
 pub mod c12;
 pub mod c10;
 pub mod c06;
@@ -19,6 +20,7 @@ pub fn run(prop: &str, ctx: &mut Ctx) -> Option<Report> {
     match prop {
         "C01" => Some(c01::run(ctx)),
         "C04" => Some(c04::run(ctx)),
+        "C05" => Some(c05::run(ctx)),
         "C12" => Some(c12::run(ctx)),
         "C10" => Some(c10::run(ctx)),
         "C06" => Some(c06::run(ctx)),
